@@ -50,7 +50,7 @@ def run(ctx):
     ctx.tlc_gen("MC_Hierarchy", GEN.format(nodes="{1,2}", mvals="MV2", inits="Inits2", encs='{"auto"}', maxupd=1, maxedge=0, legacy="TRUE", emit=""),
                 "legacy-selftest", expect_violation=True, workers=2)
     # OehIndex level: ALL labelled DAGs x every encoding that can be forced x ALL measure-update sequences
-    api = ctx.tlc_gen("MC_Hierarchy", GEN.format(nodes="{1,2,3}", mvals="MV3" if q else "MV4", inits="Inits3", encs=ALLENC,
+    api = ctx.tlc_gen("MC_Hierarchy", GEN.format(nodes="{1,2,3}", mvals="MV3" if q else "MV4", inits="Inits3a" if q else "Inits3", encs=ALLENC,
                                                  maxupd=2 if q else 3, maxedge=0, legacy="FALSE", emit=E), "dags3", workers=W, timeout=3000)
     api += ctx.tlc_gen("MC_Hierarchy", GEN.format(nodes="{1,2,3,4}", mvals="MV2" if q else "MV3", inits="Inits4", encs=ALLENC,
                                                   maxupd=1 if q else 2, maxedge=0, legacy="FALSE", emit=E), "dags4", workers=W, timeout=3000)
@@ -59,7 +59,7 @@ def run(ctx):
                                                       maxupd=1, maxedge=0, legacy="FALSE", emit=E), "dags5", workers=W, timeout=3400)
     api = drop_prefixes(api)
     # manager / GraphStore / planner level: index declared over the store, measure writes, covering-edge writes, rebuilds
-    st = ctx.tlc_gen("MC_Hierarchy", GEN.format(nodes="{1,2,3}", mvals="MV3", inits="Inits3", encs='{"auto"}',
+    st = ctx.tlc_gen("MC_Hierarchy", GEN.format(nodes="{1,2,3}", mvals="MV3", inits="Inits3a" if q else "Inits3", encs='{"auto"}',
                                                 maxupd=1, maxedge=1 if q else 2, legacy="FALSE", emit=E), "store3", workers=W, timeout=3000)
     if not q:
         st += ctx.tlc_gen("MC_Hierarchy", GEN.format(nodes="{1,2,3,4}", mvals="MV2", inits="Inits4", encs='{"auto"}',
@@ -79,8 +79,13 @@ def run(ctx):
     tr = ctx.run_harness("hier", sp, name="hier-api", args=["layers=api"], timeout=3000)
     ctx.validate("Hierarchy_Trace", TRACE.format(nodes="= {1,2,3,4,5}"), tr, name="Hierarchy_Trace-api", corrupt=corrupt, timeout=3000)
     sp = ctx.write_scripts("hier-store", st, prefix="st")
-    tr = ctx.run_harness("hier", sp, name="hier-store", args=["layers=store,store-cy,store-lab"], timeout=3000)
+    tr = ctx.run_harness("hier", sp, name="hier-store", args=["layers=store"], timeout=3000)
     ctx.validate("Hierarchy_Trace", TRACE.format(nodes="= {1,2,3,4,5}"), tr, name="Hierarchy_Trace-store", corrupt=corrupt, timeout=3000)
+    # the same histories with every write issued as a Cypher statement, and with a label-restricted measure
+    # (quick: every third history)
+    sp = ctx.write_scripts("hier-store2", st[::3] if q else st, prefix="st2")
+    tr = ctx.run_harness("hier", sp, name="hier-store2", args=["layers=store-cy,store-lab"], timeout=3000)
+    ctx.validate("Hierarchy_Trace", TRACE.format(nodes="= {1,2,3,4,5}"), tr, name="Hierarchy_Trace-store2", corrupt=corrupt, timeout=3000)
     if not q:
         # random trees / forests / near-trees / low-width DAGs up to 300 nodes, certificate-style observations
         shapes = ["tree", "forest", "near", "dag", "chainy"]
